@@ -2,13 +2,13 @@
    transfer model, for every script of incoming datagrams. *)
 From Coq Require Import String.
 From Coq Require Import List NArith ZArith Bool Lia.
-From VF Require Import Base.Sx Tftp.Readers Tftp.ReadersProofs Tftp.Codec Tftp.Transfer Tftp.Run Tftp.Monitor.
+From VF Require Import Base.Sx Tftp.Readers Tftp.ReadersProofs Tftp.Codec Tftp.Transfer Tftp.Run Tftp.Monitor Tftp.Ideal.
 Import ListNotations.
 Open Scope Z_scope.
 
-Definition mrun (tm : Z) (rt : nat) (s : mst) (l : list tr) : mst := fold_left (mstep tm rt) l s.
+Definition mrun (tm : Z) (rt : nat) (pr : Z) (s : mst) (l : list tr) : mst := fold_left (mstep tm rt pr) l s.
 
-Lemma mrun_app tm rt s l1 l2 : mrun tm rt s (l1 ++ l2) = mrun tm rt (mrun tm rt s l1) l2.
+Lemma mrun_app tm rt pr s l1 l2 : mrun tm rt pr s (l1 ++ l2) = mrun tm rt pr (mrun tm rt pr s l1) l2.
 Proof. unfold mrun. apply fold_left_app. Qed.
 
 Lemma pkt_eqb_refl p : pkt_eqb p p = true.
@@ -27,17 +27,29 @@ Qed.
 Ltac inv H := inversion H; subst; clear H.
 
 Section Await.
-  Variable tm : Z.
+  Variable c : cfg.
   Variable rt : nat.
-  Hypothesis tm_pos : 0 < tm.
+  Hypothesis tm_pos : 0 < tmo c.
+  Hypothesis pr_nonneg : 0 <= proc c.
+  Hypothesis v_cur : v c = current.
+  Let tm := tmo c.
+  Let pr := proc c.
+
+  Lemma step_timeout s t :
+    m_mode s = MWait -> m_fail s = None -> t = Z.max (m_tsend s + tm) (m_now s) ->
+    mstep tm rt pr s (TTimeout t) = mset s (if (m_count s <? S rt)%nat then MResend else MCloseF) t.
+  Proof.
+    intros Wm Wf ->. unfold mstep. rewrite Wf, Wm, Z.eqb_refl. cbn [negb].
+    destruct (m_count s <? S rt)%nat; reflexivity.
+  Qed.
 
   (* while a packet is outstanding: the monitor follows `await` *)
   Lemma await_ok : forall evs s now,
     m_mode s = MWait -> m_fail s = None -> m_now s = now ->
-    m_tsend s <= now < m_tsend s + tm ->
-    forall o n' e' l, await current (want (m_out s)) now (m_tsend s + tm) evs = (o, n', e', l) ->
+    m_tsend s <= now ->
+    forall o n' e' l, await c (want (m_out s)) now (m_tsend s + tm) evs = (o, n', e', l) ->
     o <> OInternal /\
-    mrun tm rt s l =
+    mrun tm rt pr s l =
       mset s (match o with
               | OAcked => MNext
               | OTimeout => if (m_count s <? S rt)%nat then MResend else MCloseF
@@ -45,21 +57,29 @@ Section Await.
               | OInvalid => MErr0
               | OInternal => MEnd
               end) n' /\
-    (match o with OTimeout => n' = m_tsend s + tm | _ => now <= n' < m_tsend s + tm end).
+    now <= n'.
   Proof.
-    induction evs as [|[t a d] evs IH]; intros s now Wm Wf Wn Hnow o n' e' l H.
-    - cbn [await] in H. unfold sock_timeout in H.
+    induction evs as [|[t a d] evs IH]; intros s now Wm Wf Wn Hnow o n' e' l H;
+      cbn [await] in H; rewrite v_cur in H; cbn [late_recv current negb andb] in H;
+      fold tm in H; destruct (Z.leb_spec (m_tsend s + tm) now) as [Hover|Hin].
+    - (* no time left *)
+      inv H. split; [discriminate|]. split; [|lia].
+      cbn [mrun fold_left]. apply step_timeout; auto. lia.
+    - unfold sock_timeout in H.
       destruct (Z.ltb_spec 0 (m_tsend s + tm - now)) as [_|Hc]; [|lia].
       replace (now + (m_tsend s + tm - now)) with (m_tsend s + tm) in H by lia.
-      inv H. split; [discriminate|]. split; [|reflexivity].
-      cbn [mrun fold_left]. unfold mstep. rewrite Wf, Wm.
-      rewrite Z.eqb_refl. cbn [negb]. destruct (m_count s <? S rt)%nat; reflexivity.
-    - cbn [await] in H. unfold sock_timeout in H.
+      inv H. split; [discriminate|]. split; [|lia].
+      cbn [mrun fold_left]. apply step_timeout; auto. lia.
+    - inv H. split; [discriminate|]. split; [|lia].
+      cbn [mrun fold_left]. apply step_timeout; auto. lia.
+    - unfold sock_timeout in H.
       destruct (Z.ltb_spec 0 (m_tsend s + tm - now)) as [_|Hc]; [|lia].
       replace (now + (m_tsend s + tm - now)) with (m_tsend s + tm) in H by lia.
       destruct (Z.ltb_spec t (m_tsend s + tm)) as [Hlt|Hge].
       + (* delivered *)
-        assert (Hd : (t <? m_tsend s + tm) = true) by (apply Z.ltb_lt; lia).
+        assert (Hd : (t <? m_tsend s + tm) && (m_now s <? m_tsend s + tm) = true).
+        { apply andb_true_intro; split; apply Z.ltb_lt; lia. }
+        fold pr in H.
         destruct (N.eqb_spec a client) as [Ha|Ha]; cbn [negb] in H.
         * (* from the client *)
           destruct (classify current d) eqn:Ec.
@@ -67,16 +87,16 @@ Section Await.
              ++ inv H. split; [discriminate|]. split; [|lia].
                 cbn [mrun fold_left]. unfold mstep. rewrite Wf, Wm, Hd. cbn [negb].
                 rewrite N.eqb_refl. cbn [negb]. rewrite Ec, N.eqb_refl. reflexivity.
-             ++ destruct (await current (want (m_out s)) (Z.max now t) (m_tsend s + tm) evs) as [[[o2 n2] e2] l2] eqn:E2.
+             ++ destruct (await c (want (m_out s)) (Z.max now t + pr) (m_tsend s + tm) evs) as [[[o2 n2] e2] l2] eqn:E2.
                 inv H.
-                set (s1 := mset s MWait (Z.max (m_now s) t)).
-                destruct (IH s1 (Z.max (m_now s) t) eq_refl Wf eq_refl ltac:(cbn; lia) _ _ _ _ E2) as (I1 & I2 & I3).
+                set (s1 := mset s MWait (Z.max (m_now s) t + pr)).
+                destruct (IH s1 (Z.max (m_now s) t + pr) eq_refl Wf eq_refl ltac:(cbn; lia) _ _ _ _ E2) as (I1 & I2 & I3).
                 split; [exact I1|]. split.
                 ** cbn [mrun fold_left]. unfold mstep at 2. rewrite Wf, Wm, Hd. cbn [negb].
                    rewrite N.eqb_refl. cbn [negb]. rewrite Ec.
                    destruct (N.eqb_spec n (want (m_out s))); [contradiction|].
-                   fold s1. fold (mrun tm rt s1 l2). rewrite I2. reflexivity.
-                ** cbn [s1 mset m_tsend] in I3. destruct o; lia.
+                   fold s1. fold (mrun tm rt pr s1 l2). rewrite I2. reflexivity.
+                ** lia.
           -- inv H. split; [discriminate|]. split; [|lia].
              cbn [mrun fold_left]. unfold mstep. rewrite Wf, Wm, Hd. cbn [negb].
              rewrite N.eqb_refl. cbn [negb]. rewrite Ec. reflexivity.
@@ -89,22 +109,21 @@ Section Await.
                     | context [match ?x with _ => _ end] => destruct x; try discriminate
                     end.
         * (* foreign sender: ERROR 5, keep waiting *)
-          destruct (await current (want (m_out s)) (Z.max now t) (m_tsend s + tm) evs) as [[[o2 n2] e2] l2] eqn:E2.
+          destruct (await c (want (m_out s)) (Z.max now t + pr) (m_tsend s + tm) evs) as [[[o2 n2] e2] l2] eqn:E2.
           inv H.
-          set (s1 := mset s MWait (Z.max (m_now s) t)).
-          destruct (IH s1 (Z.max (m_now s) t) eq_refl Wf eq_refl ltac:(cbn; lia) _ _ _ _ E2) as (I1 & I2 & I3).
+          set (s1 := mset s MWait (Z.max (m_now s) t + pr)).
+          destruct (IH s1 (Z.max (m_now s) t + pr) eq_refl Wf eq_refl ltac:(cbn; lia) _ _ _ _ E2) as (I1 & I2 & I3).
           split; [exact I1|]. split.
           -- cbn [mrun fold_left]. unfold mstep at 3. rewrite Wf, Wm, Hd. cbn [negb].
              destruct (N.eqb_spec a client); [contradiction|]. cbn [negb].
              unfold mstep at 2. cbn [mset m_fail m_mode m_now]. rewrite Wf.
              rewrite N.eqb_refl, Z.eqb_refl. cbn [pkt_eqb]. rewrite N.eqb_refl. cbn [andb].
-             replace (mset (mset s (MForeign a) (Z.max (m_now s) t)) MWait (Z.max (m_now s) t)) with s1 by reflexivity.
-             fold (mrun tm rt s1 l2). rewrite I2. reflexivity.
-          -- cbn [s1 mset m_tsend] in I3. destruct o; lia.
+             replace (mset (mset s (MForeign a) (Z.max (m_now s) t + pr)) MWait (Z.max (m_now s) t + pr)) with s1 by reflexivity.
+             fold (mrun tm rt pr s1 l2). rewrite I2. reflexivity.
+          -- lia.
       + (* the datagram is too late: time-out at the deadline *)
-        inv H. split; [discriminate|]. split; [|reflexivity].
-        cbn [mrun fold_left]. unfold mstep. rewrite Wf, Wm.
-        rewrite Z.eqb_refl. cbn [negb]. destruct (m_count s <? S rt)%nat; reflexivity.
+        inv H. split; [discriminate|]. split; [|lia].
+        cbn [mrun fold_left]. apply step_timeout; auto. lia.
   Qed.
 End Await.
 
@@ -115,7 +134,7 @@ Definition mode_of (o : outcome) : mmode :=
 
 Lemma send_tries_S c k p w now evs :
   send_tries c (S k) p w now evs =
-  let '(o, n1, e1, l1) := await (v c) w now (now + tmo c) evs in
+  let '(o, n1, e1, l1) := await c w now (now + tmo c) evs in
   match o with
   | OTimeout =>
       match k with
@@ -128,36 +147,56 @@ Lemma send_tries_S c k p w now evs :
   end.
 Proof. reflexivity. Qed.
 
+(* the same for the idealised server (proc = 0), in terms of await0 *)
+Lemma send_tries_S0 c : proc c = 0 -> 0 < tmo c -> forall k p w now evs,
+  send_tries c (S k) p w now evs =
+  let '(o, n1, e1, l1) := await0 (v c) w now (now + tmo c) evs in
+  match o with
+  | OTimeout =>
+      match k with
+      | O => if retry_fallthrough (v c) then (OAcked, n1, e1, TSend now client p :: l1)
+             else (OTimeout, n1, e1, TSend now client p :: l1)
+      | S _ => let '(o2, n2, e2, l2) := send_tries c k p w n1 e1 in
+               (o2, n2, e2, TSend now client p :: l1 ++ l2)
+      end
+  | _ => (o, n1, e1, TSend now client p :: l1)
+  end.
+Proof. intros Hp Ht k p w now evs. rewrite send_tries_S, (await_await0 c w _ Hp) by lia. reflexivity. Qed.
+
 Section Tries.
   Variable c : cfg.
   Hypothesis tm_pos : 0 < tmo c.
+  Hypothesis pr_nonneg : 0 <= proc c.
   Hypothesis v_cur : v c = current.
   Let tm := tmo c.
   Let rt := retries c.
+  Let pr := proc c.
 
   (* [s1] is the monitor state right after the packet has been sent *)
   Lemma send_tries_ok : forall k s p now evs o n' e' l s1,
     m_fail s = None ->
-    mstep tm rt s (TSend now client p) = s1 ->
+    mstep tm rt pr s (TSend now client p) = s1 ->
     m_mode s1 = MWait -> m_fail s1 = None -> m_out s1 = p -> m_tsend s1 = now -> m_now s1 = now ->
     (m_count s1 + k = S rt)%nat ->
     send_tries c (S k) p (want p) now evs = (o, n', e', l) ->
-    exists s', mrun tm rt s l = s' /\ m_fail s' = None /\ m_exp s' = m_exp s1 /\ m_over s' = m_over s1 /\
+    exists s', mrun tm rt pr s l = s' /\ m_fail s' = None /\ m_exp s' = m_exp s1 /\ m_over s' = m_over s1 /\
                m_now s' = n' /\ m_mode s' = mode_of o /\ now <= n' /\ o <> OInternal.
   Proof.
     induction k as [|k IH]; intros s p now evs o n' e' l s1 Hf Hs1 Wm Wf Wo Wt Wn Hc H;
-      rewrite send_tries_S in H; rewrite v_cur in H;
-      destruct (await current (want p) now (now + tmo c) evs) as [[[o1 n1] e1] l1] eqn:E1;
+      rewrite send_tries_S in H;
+      destruct (await c (want p) now (now + tmo c) evs) as [[[o1 n1] e1] l1] eqn:E1;
+      try rewrite v_cur in H;
       rewrite <- Wo in E1; rewrite <- Wt in E1 at 2; rewrite <- Wn in E1 at 1; rewrite Wn in E1;
-      destruct (await_ok tm rt evs s1 now Wm Wf Wn ltac:(subst tm; lia) _ _ _ _ E1) as (I1 & I2 & I3).
+      destruct (await_ok c rt pr_nonneg v_cur evs s1 now Wm Wf Wn ltac:(lia) _ _ _ _ E1) as (I1 & I2 & I3);
+      fold tm pr in I2.
     - assert (Hcnt : (m_count s1 <? S rt)%nat = false) by (apply Nat.ltb_ge; lia).
       rewrite Hcnt in I2.
       assert (G : forall oo, oo = o1 -> (oo, n1, e1, TSend now client p :: l1) = (o, n', e', l) ->
-                  exists s', mrun tm rt s l = s' /\ m_fail s' = None /\ m_exp s' = m_exp s1 /\ m_over s' = m_over s1 /\
+                  exists s', mrun tm rt pr s l = s' /\ m_fail s' = None /\ m_exp s' = m_exp s1 /\ m_over s' = m_over s1 /\
                              m_now s' = n' /\ m_mode s' = mode_of o /\ now <= n' /\ o <> OInternal).
       { intros oo Eo HH. inv HH. eexists; split; [reflexivity|].
-        cbn [mrun fold_left]. fold (mrun tm rt (mstep tm rt s (TSend (m_now (mstep tm rt s (TSend now client p))) client p)) l1) || idtac.
-        change (fold_left (mstep tm rt) l1 (mstep tm rt s (TSend now client p))) with (mrun tm rt (mstep tm rt s (TSend now client p)) l1).
+        cbn [mrun fold_left]. fold (mrun tm rt pr (mstep tm rt pr s (TSend (m_now (mstep tm rt pr s (TSend now client p))) client p)) l1) || idtac.
+        change (fold_left (mstep tm rt pr) l1 (mstep tm rt pr s (TSend now client p))) with (mrun tm rt pr (mstep tm rt pr s (TSend now client p)) l1).
         rewrite I2. cbn [mset m_fail m_exp m_over m_now m_mode].
         repeat split; auto; destruct o; cbn [mode_of]; try reflexivity; try lia; try discriminate; try (exfalso; apply I1; reflexivity). }
       destruct o1; cbn [retry_fallthrough current] in H; eapply G; eauto.
@@ -168,20 +207,20 @@ Section Tries.
           destruct (send_tries c (S k) p (want p) n1 e1) as [[[o2 n2] e2] l2] eqn:E2.
           injection H as <- <- <- <-.
           subst s1.
-          set (s0 := mstep tm rt s (TSend now client p)) in *.
+          set (s0 := mstep tm rt pr s (TSend now client p)) in *.
           set (sr := mset s0 MResend n1) in *.
-          assert (Hsr : mstep tm rt sr (TSend n1 client p) = msent sr (m_out sr) (m_exp sr) (S (m_count sr))).
+          assert (Hsr : mstep tm rt pr sr (TSend n1 client p) = msent sr (m_out sr) (m_exp sr) (S (m_count sr))).
           { unfold mstep. cbn [sr mset m_fail m_mode m_now m_out]. rewrite Wf.
             rewrite N.eqb_refl, Wo, pkt_eqb_refl, Z.eqb_refl. cbn [andb]. reflexivity. }
           destruct (IH sr p n1 e1 o2 n2 e2 l2 _ ltac:(exact Wf) Hsr eq_refl ltac:(exact Wf) ltac:(exact Wo) eq_refl eq_refl
                       ltac:(cbn; lia) E2) as (s' & R1 & R2 & R3 & R4 & R5 & R6 & R7 & R8).
           exists s'. split.
           - cbn [mrun fold_left]. fold s0.
-            change (fold_left (mstep tm rt) (l1 ++ l2) s0) with (mrun tm rt s0 (l1 ++ l2)).
+            change (fold_left (mstep tm rt pr) (l1 ++ l2) s0) with (mrun tm rt pr s0 (l1 ++ l2)).
             rewrite mrun_app, I2. exact R1.
           - repeat split; auto. lia. }
       all: inv H; eexists; (split; [reflexivity|]); cbn [mrun fold_left];
-        change (fold_left (mstep tm rt) l1 (mstep tm rt s (TSend now client p))) with (mrun tm rt (mstep tm rt s (TSend now client p)) l1);
+        change (fold_left (mstep tm rt pr) l1 (mstep tm rt pr s (TSend now client p))) with (mrun tm rt pr (mstep tm rt pr s (TSend now client p)) l1);
         rewrite I2; cbn [mset m_fail m_exp m_over m_now m_mode mode_of];
         repeat split; auto; try lia; try discriminate; try (exfalso; apply I1; reflexivity).
   Qed.
@@ -190,16 +229,18 @@ End Tries.
 Section Blocks.
   Variable c : cfg.
   Hypothesis tm_pos : 0 < tmo c.
+  Hypothesis pr_nonneg : 0 <= proc c.
   Hypothesis v_cur : v c = current.
   Notation tm := (tmo c).
   Notation rt := (retries c).
+  Notation pr := (proc c).
 
   Definition ready_new (s : mst) (now : Z) : Prop :=
     (m_mode s = MStart \/ m_mode s = MNext) /\ m_fail s = None /\ m_now s = now.
 
   Lemma first_send s now q r :
     ready_new s now -> m_exp s = q :: r ->
-    mstep tm rt s (TSend now client q) = msent s q r 1.
+    mstep tm rt pr s (TSend now client q) = msent s q r 1.
   Proof.
     intros ([Hm|Hm] & Hf & Hn) He; unfold mstep; rewrite Hf, Hm, He, N.eqb_refl, pkt_eqb_refl, Hn, Z.eqb_refl;
       reflexivity.
@@ -210,7 +251,7 @@ Section Blocks.
     m_exp s = fst (number_blocks (wrap c) blk blocks) ->
     m_over s = snd (number_blocks (wrap c) blk blocks) ->
     send_blocks c blk blocks now evs = (r, n', e', l) ->
-    exists s', mrun tm rt s l = s' /\ m_fail s' = None /\ m_now s' = n' /\ now <= n' /\
+    exists s', mrun tm rt pr s l = s' /\ m_fail s' = None /\ m_now s' = n' /\ now <= n' /\
       match r with
       | inr e => (m_mode s' = MNext \/ s' = s) /\ m_exp s' = [] /\
                  m_over s' = match e with EDone => false | EOverflow => true end
@@ -228,7 +269,7 @@ Section Blocks.
       destruct (send_tries c (S (retries c)) (PData n b) n now evs) as [[[o n1] e1] l1] eqn:E1.
       pose proof (first_send s now _ _ Hr He) as Hfs.
       destruct Hr as (Hm & Hf & Hn).
-      destruct (send_tries_ok c tm_pos v_cur (retries c) s (PData n b) now evs o n1 e1 l1 _ Hf Hfs
+      destruct (send_tries_ok c pr_nonneg v_cur (retries c) s (PData n b) now evs o n1 e1 l1 _ Hf Hfs
                   eq_refl Hf eq_refl Hn Hn ltac:(cbn; lia) E1)
         as (s1 & R1 & R2 & R3 & R4 & R5 & R6 & R7 & R8).
       cbn [msent m_exp m_over] in R3, R4.
@@ -255,7 +296,7 @@ End Blocks.
 (* ---------- the whole transfer ---------- *)
 Definition valid (c : tcase) : Prop :=
   t_v c = current /\ t_nv c = ncurrent /\ t_na_always_skip c = false /\
-  (1 <= max_bs (t_limits c))%N /\ (1 <= default_tmo (t_limits c))%N.
+  (1 <= max_bs (t_limits c))%N /\ (1 <= default_tmo (t_limits c))%N /\ 0 <= t_proc c.
 
 Lemma negotiate_pos lim na k opts :
   (1 <= max_bs lim)%N -> (1 <= default_tmo lim)%N ->
@@ -272,60 +313,61 @@ Qed.
 
 Lemma t_blocks_spec c : valid c -> t_blocks c = spec_blocks c.
 Proof.
-  intros (Hv & Hnv & Hna & Hb & Ht). unfold t_blocks, spec_blocks, t_neg. rewrite Hnv, Hna.
+  intros (Hv & Hnv & Hna & Hb & Ht & _). unfold t_blocks, spec_blocks, t_neg. rewrite Hnv, Hna.
   destruct (negotiate_pos (t_limits c) (t_netascii c) (t_kind c) (t_options c) Hb Ht) as [H1 _].
   destruct (t_netascii c).
   - apply netascii_blocks_spec. lia.
   - apply octet_blocks_spec. lia.
 Qed.
 
-Lemma step_closef tm rt s :
+Lemma step_closef tm rt pr s :
   m_fail s = None -> (m_mode s = MCloseF \/ m_mode s = MSilent) ->
-  mstep tm rt s TCloseFile = mset s MCloseS (m_now s).
+  mstep tm rt pr s TCloseFile = mset s MCloseS (m_now s).
 Proof. intros Hf [Hm|Hm]; unfold mstep; rewrite Hf, Hm; reflexivity. Qed.
-Lemma step_closes tm rt s :
-  m_fail s = None -> m_mode s = MCloseS -> mstep tm rt s TCloseSock = mset s MEnd (m_now s).
+Lemma step_closes tm rt pr s :
+  m_fail s = None -> m_mode s = MCloseS -> mstep tm rt pr s TCloseSock = mset s MEnd (m_now s).
 Proof. intros Hf Hm; unfold mstep; rewrite Hf, Hm; reflexivity. Qed.
 
-Lemma closes_ok tm rt s :
+Lemma closes_ok tm rt pr s :
   m_fail s = None -> (m_mode s = MCloseF \/ m_mode s = MSilent) ->
-  let s' := mrun tm rt s [TCloseFile; TCloseSock] in m_fail s' = None /\ m_mode s' = MEnd.
+  let s' := mrun tm rt pr s [TCloseFile; TCloseSock] in m_fail s' = None /\ m_mode s' = MEnd.
 Proof.
-  intros Hf Hm. cbn [mrun fold_left]. rewrite (step_closef tm rt s Hf Hm).
+  intros Hf Hm. cbn [mrun fold_left]. rewrite (step_closef tm rt pr s Hf Hm).
   rewrite step_closes by (cbn; auto). cbn. auto.
 Qed.
 
-Lemma step_err0 tm rt s now :
+Lemma step_err0 tm rt pr s now :
   m_fail s = None -> m_mode s = MErr0 -> m_now s = now ->
-  mstep tm rt s (TSend now client (PError 0)) = mset s MCloseF now.
+  mstep tm rt pr s (TSend now client (PError 0)) = mset s MCloseF now.
 Proof.
   intros Hf Hm Hn; unfold mstep; rewrite Hf, Hm, N.eqb_refl, Hn, Z.eqb_refl. cbn [pkt_eqb].
   rewrite N.eqb_refl. reflexivity.
 Qed.
-Lemma step_overflow tm rt s now :
+Lemma step_overflow tm rt pr s now :
   m_fail s = None -> m_mode s = MNext -> m_exp s = [] -> m_over s = true -> m_now s = now ->
-  mstep tm rt s (TSend now client (PError 0)) = mset s MCloseF now.
+  mstep tm rt pr s (TSend now client (PError 0)) = mset s MCloseF now.
 Proof.
   intros Hf Hm He Ho Hn; unfold mstep; rewrite Hf, Hm, He, Ho, N.eqb_refl, Hn, Z.eqb_refl. cbn [pkt_eqb].
   rewrite N.eqb_refl. reflexivity.
 Qed.
-Lemma step_done tm rt s :
+Lemma step_done tm rt pr s :
   m_fail s = None -> m_mode s = MNext -> m_exp s = [] -> m_over s = false ->
-  mstep tm rt s TCloseFile = mset s MCloseS (m_now s).
+  mstep tm rt pr s TCloseFile = mset s MCloseS (m_now s).
 Proof. intros Hf Hm He Ho; unfold mstep; rewrite Hf, Hm, He, Ho. reflexivity. Qed.
 
 Theorem monitor_accepts c : valid c -> monitor c (run_transfer_case c) = [].
 Proof.
-  intros Hv. pose proof Hv as (Hcur & Hnv & Hna & Hb & Ht).
+  intros Hv. pose proof Hv as (Hcur & Hnv & Hna & Hb & Ht & Hpr).
   destruct (negotiate_pos (t_limits c) (t_netascii c) (t_kind c) (t_options c) Hb Ht) as [_ Htm].
   unfold monitor, run_transfer_case. rewrite (t_blocks_spec c Hv).
   assert (tm_pos : 0 < tmo (t_cfg c)).
   { unfold t_cfg, t_neg; cbn [tmo]. rewrite Hnv. unfold TICKS. lia. }
+  assert (pr_nonneg : 0 <= proc (t_cfg c)) by exact Hpr.
   assert (v_cur : v (t_cfg c) = current) by exact Hcur.
-  change (fold_left (mstep (tmo (t_cfg c)) (t_retries c))) with
-      (fun l s => mrun (tmo (t_cfg c)) (retries (t_cfg c)) s l).
+  change (fold_left (mstep (tmo (t_cfg c)) (t_retries c) (t_proc c))) with
+      (fun l s => mrun (tmo (t_cfg c)) (retries (t_cfg c)) (proc (t_cfg c)) s l).
   cbv beta.
-  set (tm := tmo (t_cfg c)) in *. set (rt := retries (t_cfg c)) in *.
+  set (tm := tmo (t_cfg c)) in *. set (rt := retries (t_cfg c)) in *. set (pr := proc (t_cfg c)) in *.
   unfold minit, expected.
   destruct (number_blocks (t_wrap c) 0%N (spec_blocks c)) as [lb ob] eqn:Enb.
   unfold transfer, transfer_r.
@@ -336,18 +378,18 @@ Proof.
                        m_over s = match e with EDone => false | EOverflow => true end
             | inl o => m_mode s = mode_of o /\ (o = OTimeout \/ o = OPeerError \/ o = OInvalid)
             end ->
-            let s' := mrun tm rt s (finish r now ++ [TCloseFile; TCloseSock]) in
+            let s' := mrun tm rt pr s (finish r now ++ [TCloseFile; TCloseSock]) in
             m_fail s' = None /\ m_mode s' = MEnd).
   { intros s r now Hf Hn Hr. destruct r as [o|e].
     - destruct Hr as (Hm & [->| [->| ->]]); cbn [finish mode_of] in *.
       + apply closes_ok; auto.
       + apply closes_ok; auto.
-      + cbn [app mrun fold_left]. rewrite (step_err0 tm rt s now Hf Hm Hn).
-        apply (closes_ok tm rt (mset s MCloseF now)); cbn; auto.
+      + cbn [app mrun fold_left]. rewrite (step_err0 tm rt pr s now Hf Hm Hn).
+        apply (closes_ok tm rt pr (mset s MCloseF now)); cbn; auto.
     - destruct Hr as (Hm & He & Ho). destruct e; cbn [finish app mrun fold_left].
-      + rewrite (step_done tm rt s Hf Hm He Ho). rewrite step_closes by (cbn; auto). cbn. auto.
-      + rewrite (step_overflow tm rt s now Hf Hm He Ho Hn).
-        apply (closes_ok tm rt (mset s MCloseF now)); cbn; auto. }
+      + rewrite (step_done tm rt pr s Hf Hm He Ho). rewrite step_closes by (cbn; auto). cbn. auto.
+      + rewrite (step_overflow tm rt pr s now Hf Hm He Ho Hn).
+        apply (closes_ok tm rt pr (mset s MCloseF now)); cbn; auto. }
   assert (NE : spec_blocks c <> []).
   { unfold spec_blocks, split_blocks. destruct (length _); cbn [split_go]; [discriminate|].
     destruct (shorter _ _); discriminate. }
@@ -356,7 +398,7 @@ Proof.
     set (s0 := {| m_exp := lb; m_over := ob; m_out := PError 0; m_tsend := 0; m_count := 0; m_now := 0;
                   m_mode := MStart; m_fail := None |}).
     destruct (send_blocks (t_cfg c) 0%N (spec_blocks c) 0 (t_events c)) as [[[r n] e] l] eqn:E. cbn [snd].
-    destruct (send_blocks_ok (t_cfg c) tm_pos v_cur (spec_blocks c) 0%N s0 0 (t_events c) r n e l)
+    destruct (send_blocks_ok (t_cfg c) pr_nonneg v_cur (spec_blocks c) 0%N s0 0 (t_events c) r n e l)
       as (s1 & R1 & R2 & R3 & R4 & R5); auto.
     { repeat split; auto. }
     { cbn [wrap t_cfg]. rewrite Enb. reflexivity. }
@@ -373,22 +415,22 @@ Proof.
       change (next_block (t_wrap c) 0%N) with (Some 1%N) in Enb. cbv iota beta in Enb.
       destruct (number_blocks (t_wrap c) 1%N rest) as [l' o'] eqn:E'.
       injection Enb as E1 E2. rewrite <- E1 in Q2. discriminate Q2. }
-    rewrite mrun_app. fold tm rt in R1. rewrite R1.
+    rewrite mrun_app. fold tm rt pr in R1. rewrite R1.
     destruct (Fin s1 r n R2 R3 Hr) as [F1 F2]. cbv zeta in F1, F2. rewrite F1, F2. reflexivity.
   - (* OACK first *)
     set (s0 := {| m_exp := POack (oa1 :: oar) :: lb; m_over := ob; m_out := PError 0; m_tsend := 0; m_count := 0;
                   m_now := 0; m_mode := MStart; m_fail := None |}).
     destruct (send_tries (t_cfg c) (S (retries (t_cfg c))) (POack (oa1 :: oar)) 0%N 0 (t_events c))
       as [[[o n1] e1] l1] eqn:E1. cbn [snd].
-    assert (Hfs : mstep tm rt s0 (TSend 0 client (POack (oa1 :: oar))) = msent s0 (POack (oa1 :: oar)) lb 1).
+    assert (Hfs : mstep tm rt pr s0 (TSend 0 client (POack (oa1 :: oar))) = msent s0 (POack (oa1 :: oar)) lb 1).
     { apply (first_send (t_cfg c)); [repeat split; auto|reflexivity]. }
-    destruct (send_tries_ok (t_cfg c) tm_pos v_cur (retries (t_cfg c)) s0 (POack (oa1 :: oar)) 0 (t_events c)
+    destruct (send_tries_ok (t_cfg c) pr_nonneg v_cur (retries (t_cfg c)) s0 (POack (oa1 :: oar)) 0 (t_events c)
                 o n1 e1 l1 _ eq_refl Hfs eq_refl eq_refl eq_refl eq_refl eq_refl ltac:(cbn; lia) E1)
       as (s1 & R1 & R2 & R3 & R4 & R5 & R6 & R7 & R8).
     cbn [msent m_exp m_over s0] in R3, R4.
     destruct o; cbn [snd].
     + destruct (send_blocks (t_cfg c) 0%N (spec_blocks c) n1 e1) as [[[r n] e] l] eqn:E. cbn [snd].
-      destruct (send_blocks_ok (t_cfg c) tm_pos v_cur (spec_blocks c) 0%N s1 n1 e1 r n e l)
+      destruct (send_blocks_ok (t_cfg c) pr_nonneg v_cur (spec_blocks c) 0%N s1 n1 e1 r n e l)
         as (s2 & Q1 & Q2 & Q3 & Q4 & Q5); auto.
       { repeat split; auto. }
       { cbn [wrap t_cfg]. rewrite Enb. exact R3. }
@@ -400,15 +442,15 @@ Proof.
             end).
       { destruct r as [o|e0]; [exact Q5|]. destruct Q5 as ([Q|Q] & Q6 & Q7); [auto|].
         rewrite Q in *. split; [exact R6|split; assumption]. }
-      rewrite (mrun_app _ _ _ (l1 ++ l)), (mrun_app _ _ _ l1). fold tm rt in R1, Q1. rewrite R1, Q1.
+      rewrite (mrun_app _ _ _ _ (l1 ++ l)), (mrun_app _ _ _ _ l1). fold tm rt pr in R1, Q1. rewrite R1, Q1.
       destruct (Fin s2 r n Q2 Q3 Hr) as [F1 F2]. cbv zeta in F1, F2. rewrite F1, F2. reflexivity.
-    + rewrite mrun_app. fold tm rt in R1. rewrite R1.
+    + rewrite mrun_app. fold tm rt pr in R1. rewrite R1.
       destruct (Fin s1 (inl OTimeout) n1 R2 R5 ltac:(split; auto)) as [F1 F2]. cbv zeta in F1, F2.
       rewrite F1, F2. reflexivity.
-    + rewrite mrun_app. fold tm rt in R1. rewrite R1.
+    + rewrite mrun_app. fold tm rt pr in R1. rewrite R1.
       destruct (Fin s1 (inl OPeerError) n1 R2 R5 ltac:(split; auto)) as [F1 F2]. cbv zeta in F1, F2.
       rewrite F1, F2. reflexivity.
-    + rewrite mrun_app. fold tm rt in R1. rewrite R1.
+    + rewrite mrun_app. fold tm rt pr in R1. rewrite R1.
       destruct (Fin s1 (inl OInvalid) n1 R2 R5 ltac:(split; auto)) as [F1 F2]. cbv zeta in F1, F2.
       rewrite F1, F2. reflexivity.
     + exfalso. apply R8. reflexivity.
